@@ -49,11 +49,10 @@ theorem C12_tryparse_spec (i : Input) (h : WF i = true) (s : Name) (target : Int
   simp only [specParse, Option.bind_some]
   cases specValueOf i.T i.decl s <;> rfl
 
-/-- IsEnum[T, TV](p), for every integer type TV (kind `kV`, any width and signedness) and every value
-    `p` of TV: true exactly when `p` is a declared value — provided no declared value of the opposite
-    sign is the same bit pattern as `p` both ways (`F_isenum_sign`, the one remaining finding region) -/
+/-- IsEnum[T, TV](p), for EVERY integer type TV (kind `kV`, any width and signedness) and every value
+    `p` of TV: true exactly when `p` is a declared value (no truncation, no reinterpretation of signs) -/
 theorem C12_isenum_iff (i : Input) (h : WF i = true) (kV : Kind) (hbV : 0 < kV.bits) (p : Int)
-    (hp : kV.has p = true) (hF : F_isenum_sign i.kind i.decl [(kV, p)] = false) :
+    (hp : kV.has p = true) :
     isEnum i.kind kV (valuesT (tables i)) p = true ↔ ∃ c ∈ i.decl, c.val = p := by
   have f := WF.facts h
   unfold isEnum
@@ -63,51 +62,18 @@ theorem C12_isenum_iff (i : Input) (h : WF i = true) (kV : Kind) (hbV : 0 < kV.b
   · rintro ⟨x, hx, he⟩
     obtain ⟨c, hc, rfl⟩ := List.mem_map.mp hx
     have hcd := (tables_perm h).mem_iff.mp hc
-    simp only [Bool.and_eq_true, beq_iff_eq] at he
-    refine ⟨c, hcd, ?_⟩
-    have hsign : c.val < 0 ↔ p < 0 := by
-      simp only [F_isenum_sign, List.any_cons, List.any_nil, Bool.or_false, List.any_eq_false,
-        Bool.and_eq_true, beq_iff_eq, not_and, bne_iff_ne, ne_eq] at hF
-      have := hF c hcd
-      by_cases hd : decide (c.val < 0) = decide (p < 0)
-      · simpa using hd
-      · exact absurd he.2 (this ⟨hd, he.1⟩)
-    exact roundtrip_eq i.kind kV f.bits hbV c.val p (f.inKind c hcd) hp hsign he.1 he.2
+    simp only [Bool.and_eq_true, beq_iff_eq, decide_eq_decide] at he
+    exact ⟨c, hcd, roundtrip_eq i.kind kV f.bits hbV c.val p (f.inKind c hcd) hp he.2 he.1.1 he.1.2⟩
   · rintro ⟨c, hc, rfl⟩
     refine ⟨c.val, List.mem_map_of_mem ((tables_perm h).mem_iff.mpr hc), ?_⟩
     rw [wrap_of_has i.kind f.bits c.val (f.inKind c hc), wrap_of_has kV hbV c.val hp]
     simp
 
 theorem C12_isenum (i : Input) (h : WF i = true) (kV : Kind) (hbV : 0 < kV.bits) (p : Int)
-    (hp : kV.has p = true) (hF : F_isenum_sign i.kind i.decl [(kV, p)] = false) :
+    (hp : kV.has p = true) :
     isEnum i.kind kV (valuesT (tables i)) p = specIsEnum i.decl p := by
-  rw [Bool.eq_iff_iff, C12_isenum_iff i h kV hbV p hp hF]
+  rw [Bool.eq_iff_iff, C12_isenum_iff i h kV hbV p hp]
   simp [specIsEnum]
-
-/-- the finding region is empty when T and TV have the same signedness (truncation alone can no
-    longer fool IsEnum), and when neither the probe nor any declared value is negative -/
-theorem C12_isenum_same_sign (i : Input) (h : WF i = true) (kV : Kind) (hbV : 0 < kV.bits) (p : Int)
-    (hp : kV.has p = true)
-    (hs : i.kind.signed = kV.signed ∨ (0 ≤ p ∧ ∀ c ∈ i.decl, 0 ≤ c.val)) :
-    F_isenum_sign i.kind i.decl [(kV, p)] = false := by
-  have f := WF.facts h
-  simp only [F_isenum_sign, List.any_cons, List.any_nil, Bool.or_false, List.any_eq_false,
-    Bool.and_eq_true, beq_iff_eq, not_and, bne_iff_ne, ne_eq]
-  intro c hc ⟨hd, h1⟩ h2
-  apply hd
-  rcases hs with hs | ⟨hp0, hall⟩
-  · -- same signedness: the narrower type is contained in the wider, so one conversion is the identity
-    have hcp : c.val = p := by
-      by_cases hb : i.kind.bits ≤ kV.bits
-      · have := has_mono i.kind kV hs f.bits hb c.val (f.inKind c hc)
-        rw [wrap_of_has kV hbV c.val this] at h2; exact h2
-      · have := has_mono kV i.kind hs.symm hbV (by omega) p hp
-        rw [wrap_of_has i.kind f.bits p this] at h1; exact h1
-    rw [hcp]
-  · have := hall c hc
-    have h3 : ¬ c.val < 0 := by omega
-    have h4 : ¬ p < 0 := by omega
-    simp [h3, h4]
 
 /-- every encoder puts the String() text on the wire: the trimmed name for a declared constant -/
 theorem C12_encode (i : Input) (h : WF i = true) (x : Int) :
@@ -168,17 +134,16 @@ theorem C12_decode_spec (i : Input) (h : WF i = true) (target : Int) :
     | bytes s => exact hinto s
     | other => rfl
 
-/-! ### finding regions -/
+/-! ### the former finding regions, now asserted -/
 
-/-- `type E int8; const EA E = -1`: IsEnum[E, uint8](255) is true, 255 is not a declared value -/
+/-- `type E int8; const EA E = -1` (the former sign-reinterpretation witness: IsEnum[E, uint8](255) is rejected now) -/
 def signWitness : Input :=
   { T := ['E'], kind := ⟨true, 8⟩,
     blocks := [[{ names := [['E', 'A']], ty := some ['E'], hasVals := true, exprTy := none, vals := [-1] }]] }
 
-theorem C12_F_isenum_sign_witness :
-    WF signWitness = true ∧ F_isenum_sign signWitness.kind signWitness.decl [(⟨false, 8⟩, 255)] = true ∧
-    isEnum signWitness.kind ⟨false, 8⟩ (valuesT (tables signWitness)) 255 = true ∧
-    specIsEnum signWitness.decl 255 = false := by decide
+example : WF signWitness = true ∧
+    isEnum signWitness.kind ⟨false, 8⟩ (valuesT (tables signWitness)) 255 = false ∧
+    isEnum signWitness.kind ⟨true, 16⟩ (valuesT (tables signWitness)) (-1) = true := by decide
 
 /-- `type E uint8; const EA E = 44` (the former truncation witness: 300 is rejected now) -/
 def truncWitness : Input :=
@@ -191,7 +156,6 @@ example : WF truncWitness = true ∧ truncWitness.kind.has 44 = true ∧
     unmarshalJSON (vmOf truncWitness) (.str ['A']) 7 = (none, 44) ∧
     unmarshalJSON (vmOf truncWitness) (.str ['a']) 7 = (some .notFound, 7) ∧
     isEnum truncWitness.kind ⟨true, 64⟩ (valuesT (tables truncWitness)) 44 = true ∧
-    isEnum truncWitness.kind ⟨true, 64⟩ (valuesT (tables truncWitness)) 300 = false ∧
-    F_isenum_sign truncWitness.kind truncWitness.decl [(⟨true, 64⟩, 300)] = false := by decide
+    isEnum truncWitness.kind ⟨true, 64⟩ (valuesT (tables truncWitness)) 300 = false := by decide
 
 end ShootVerif.Enum
